@@ -15,6 +15,19 @@ from zope.interface import (Interface, alsoProvides, classImplements, classImple
                             classImplementsOnly, directlyProvidedBy, directlyProvides, implementedBy,
                             implementer, implementer_only, noLongerProvides, providedBy, provider)
 from zope.interface.interface import InterfaceClass
+from zope.interface import declarations as _decl
+
+# built-in (immutable) types used as classes; a case's k-th NewClass with "bi" uses BUILTINS[bi]
+BUILTINS = [int, str, float, list, dict, set, bytes, tuple, frozenset, complex, bytearray]
+_TABLE0 = set(_decl.BuiltinImplementationSpecifications)
+assert not (_TABLE0 & set(BUILTINS)), "a pool type is already declared at import time"
+
+
+def clean_builtin_table():
+    """BuiltinImplementationSpecifications is process-global: forget what the case put there"""
+    for k in list(_decl.BuiltinImplementationSpecifications):
+        if k not in _TABLE0:
+            del _decl.BuiltinImplementationSpecifications[k]
 
 
 class World:
@@ -51,65 +64,104 @@ class World:
         kind, n = t
         return self.objs[n] if kind == "i" else self.classes[n]
 
+    def args(self, op):
+        """the arguments of a declaration call: interfaces and declaration objects (evaluated
+        now, before the call), nested at random into tuples / lists as op["nest"] says"""
+        out = []
+        for a in op.get("l", []):
+            if isinstance(a, int):
+                out.append(self.ifaces[a])
+            elif "dpb" in a:
+                out.append(directlyProvidedBy(self.target(a["dpb"])))
+            else:
+                out.append(providedBy(self.target(a["prov"])))
+        nest = op.get("nest")
+        if nest:
+            grouped, pos = [], 0
+            for k, n in enumerate(nest):
+                chunk = out[pos:pos + abs(n)]
+                pos += abs(n)
+                if n < 0:          # leave these flat
+                    grouped.extend(chunk)
+                else:
+                    grouped.append(tuple(chunk) if k % 2 else [tuple(chunk)])
+            grouped.extend(out[pos:])
+            out = grouped
+        return out
+
     def apply(self, op):
         k = op["op"]
         I = self.ifaces
         if k == "NewClass":
             bases = tuple(self.classes[b] for b in op["bases"]) or (object,)
             name = "C%d" % len(self.classes)
-            if op.get("m") is None:
+            if op.get("bi") is not None:
+                self.classes.append(BUILTINS[op["bi"]])
+            elif op.get("m") is None:
                 self.classes.append(type(name, bases, {"__module__": "c01case"}))
             else:
                 self.classes.append(self.metas[op["m"]](name, bases, {"__module__": "c01case"}))
         elif k == "NewInstance":
-            self.objs[self.nobj] = self.classes[op["c"]]()
+            self.objs[self.nobj] = self.classes[op["c"]]()   # built-in types: int() etc.
             self.nobj += 1
         elif k == "DropInstance":
             del self.objs[op["o"]]
             gc.collect()
         elif k == "Implementer":
-            implementer(*[I[i] for i in op["l"]])(self.classes[op["c"]])
+            implementer(*self.args(op))(self.classes[op["c"]])
         elif k == "ImplementerOnly":
-            implementer_only(*[I[i] for i in op["l"]])(self.classes[op["c"]])
+            implementer_only(*self.args(op))(self.classes[op["c"]])
         elif k == "ClassImplements":
-            classImplements(self.classes[op["c"]], *[I[i] for i in op["l"]])
+            classImplements(self.classes[op["c"]], *self.args(op))
         elif k == "ClassImplementsOnly":
-            classImplementsOnly(self.classes[op["c"]], *[I[i] for i in op["l"]])
+            classImplementsOnly(self.classes[op["c"]], *self.args(op))
         elif k == "ClassImplementsFirst":
             classImplementsFirst(self.classes[op["c"]], I[op["x"]])
         elif k == "DirectlyProvides":
-            directlyProvides(self.target(op["t"]), *[I[i] for i in op["l"]])
+            directlyProvides(self.target(op["t"]), *self.args(op))
         elif k == "AlsoProvides":
-            alsoProvides(self.target(op["t"]), *[I[i] for i in op["l"]])
+            alsoProvides(self.target(op["t"]), *self.args(op))
         elif k == "NoLongerProvides":
             noLongerProvides(self.target(op["t"]), I[op["x"]])
         elif k == "Provider":
-            provider(*[I[i] for i in op["l"]])(self.target(op["t"]))
+            provider(*self.args(op))(self.target(op["t"]))
         else:
             raise KeyError(k)
 
-    def query_class_objects(self):
+    def query_class_objects(self, ids):
         """the class objects alone; nothing here computes implementedBy(C)"""
         I = self.ifaces
-        return [[c, self.mask(providedBy(C).flattened()), self.mask(i for i in I if i.providedBy(C)),
-                 [self.num(i) for i in directlyProvidedBy(C)]] for c, C in enumerate(self.classes)]
+        out = []
+        for c in ids:
+            C = self.classes[c]
+            out.append([c, self.mask(providedBy(C).flattened()), self.mask(i for i in I if i.providedBy(C)),
+                        [self.num(i) for i in directlyProvidedBy(C)]])
+        return out
 
-    def query(self):
+    def query(self, inst_ids, cls_ids):
         I = self.ifaces
         inst = []
-        for o in sorted(self.objs):
+        for o in inst_ids:
             ob = self.objs[o]
             inst.append([o, self.mask(providedBy(ob).flattened()),
                          self.mask(i for i in I if i.providedBy(ob)),
                          [self.num(i) for i in directlyProvidedBy(ob)]])
         cls = []
-        for c, C in enumerate(self.classes):
+        for c in cls_ids:
+            C = self.classes[c]
             cls.append([c, self.mask(implementedBy(C).flattened()),
                         self.mask(i for i in I if i.implementedBy(C)),
                         self.mask(providedBy(C).flattened()),
                         self.mask(i for i in I if i.providedBy(C)),
                         [self.num(i) for i in directlyProvidedBy(C)]])
         return {"inst": inst, "cls": cls}
+
+
+def _ids(sel, everything):
+    """True = all; a list = those (that still exist)"""
+    if sel is True:
+        return list(everything)
+    return [x for x in sel if x in everything]
 
 
 def run_case(case):
@@ -121,20 +173,27 @@ def run_case(case):
             w.apply(op)
         except ValueError as e:
             exc, name = 1, "ValueError"
+        except TypeError as e:
+            exc, name = 2, "TypeError"
+        except AttributeError as e:
+            exc, name = 3, "AttributeError"
         except Exception as e:  # reported as data
-            exc, name = 2, type(e).__name__
+            exc, name = 9, type(e).__name__
         cp = None
-        if op.get("qp") and exc != 2:
+        if op.get("qp") and exc != 9:
             try:
-                cp = w.query_class_objects()
+                cp = w.query_class_objects(_ids(op["qp"], range(len(w.classes))))
             except Exception as e:
-                exc, name = 2, "query:" + type(e).__name__
+                exc, name = 9, "query:" + type(e).__name__
         q = None
         if op.get("q"):
             try:
-                q = w.query()
+                sel = op["q"]
+                if sel is True:
+                    sel = {"i": True, "c": True}
+                q = w.query(_ids(sel.get("i", []), sorted(w.objs)), _ids(sel.get("c", []), range(len(w.classes))))
             except Exception as e:
-                exc, name = 2, "query:" + type(e).__name__
+                exc, name = 9, "query:" + type(e).__name__
                 q = {"inst": [], "cls": []}
         steps.append({"exc": exc, "excname": name, "q": q, "cp": cp})
     return {"steps": steps}
@@ -157,6 +216,7 @@ def main():
             res = {"steps": [], "crash": type(e).__name__ + ": " + str(e)[:200]}
         out.append(json.dumps(res))
         del res
+        clean_builtin_table()
         gc.collect()
     sys.stdout.write('{"obs": [' + ", ".join(out) + ']}')
     sys.stdout.flush()
